@@ -176,6 +176,7 @@ func runC15(c *core.Ctx) {
 	rng := c.Rng("extractor")
 	runPattern := func(pat []int, groups int) {
 		fields := []reflect.StructField{}
+		echoVals := map[int]string{}
 		for i, p := range pat {
 			rule := classes[p].rule
 			if strings.Contains(rule, "%d") {
@@ -191,6 +192,12 @@ func runC15(c *core.Ctx) {
 					rule = "required|" + []string{"必", "填", "必x", "年龄说明: 应该在 1-3 之间", "参见 explain: 一栏"}[rng.Intn(5)]
 				}
 			}
+			// one field in three fails a length rule instead, so that the clause echoes a non-empty
+			// value — with letters whose lower-case form has another UTF-8 length (İ K Ω ẞ Ⱥ)
+			if rng.Intn(3) == 0 && (classes[p].name == "en" || classes[p].name == "cu" || classes[p].name == "zh") {
+				rule = "le=2" + strings.TrimPrefix(rule, "required")
+				echoVals[i] = []string{"İstanbul", "K-273", "Ω ẞ Ⱥ", "İİİ K"}[rng.Intn(4)]
+			}
 			fields = append(fields, reflect.StructField{Name: fmt.Sprintf("F%d", i), Type: reflect.TypeOf(""), Tag: reflect.StructTag(`valid:"` + rule + `"`)})
 		}
 		for g := 0; g < groups; g++ {
@@ -203,6 +210,9 @@ func runC15(c *core.Ctx) {
 		for i, p := range pat {
 			if classes[p].name == "wr" { // the rule function only runs on a non-empty value
 				obj.Elem().Field(i).SetString("v")
+			}
+			if ev, ok := echoVals[i]; ok {
+				obj.Elem().Field(i).SetString(ev)
 			}
 		}
 		out := drive.Call(func() error { return valid.Struct(obj.Interface()) })
